@@ -1,9 +1,131 @@
 //! Projection of a document to the abstract state the specification talks about, using only the
 //! public read API (ReadDoc).  One function, used by every driver and replayer.
 use crate::enc;
-use automerge::{ChangeHash, ObjId, ObjType, ReadDoc, Value};
+use automerge::iter::Span;
+use automerge::marks::MarkSet;
+use automerge::{ActorId, ChangeHash, Cursor, CursorPosition, MoveCursor, ObjId, ObjType, ReadDoc, Value};
 use serde_json::{json, Value as J};
 use std::collections::BTreeMap;
+use std::sync::atomic::{AtomicBool, Ordering};
+
+/// When set, sequence objects are projected with marks (marks / get_marks / spans) and cursors
+/// (C24, C25, C26).  Off for the families that do not need it (keeps their traces small).
+pub static RICH: AtomicBool = AtomicBool::new(false);
+
+pub fn set_rich(on: bool) {
+    RICH.store(on, Ordering::SeqCst);
+}
+
+fn markset_json(m: &MarkSet) -> J {
+    let mut v: Vec<(String, J)> = m.iter().map(|(n, val)| (n.to_string(), json!({"name": enc::safe_str(n), "v": enc::scalar(val)}))).collect();
+    v.sort_by(|a, b| a.0.cmp(&b.0));
+    J::Array(v.into_iter().map(|x| x.1).collect())
+}
+
+/// The op id a cursor names, from its textual form ("[-]ctr@actorhex").
+pub fn cursor_id(c: &Cursor) -> J {
+    let s = c.to_string();
+    let t = s.strip_prefix('-').unwrap_or(&s);
+    if let Some((ctr, actor)) = t.split_once('@') {
+        if let (Ok(ctr), Ok(a)) = (ctr.parse::<u64>(), ActorId::try_from(actor)) {
+            return enc::opid(ctr, &a);
+        }
+    }
+    match s.as_str() {
+        "s" => json!([-3, -3]),
+        "e" => json!([-4, -4]),
+        _ => json!([-1, -1]),
+    }
+}
+
+fn pos_json(r: Result<usize, automerge::AutomergeError>) -> J {
+    match r {
+        Ok(p) => json!(p as i64),
+        Err(_) => json!(-1),
+    }
+}
+
+fn rich_seq<R: ReadDoc>(doc: &R, obj: &ObjId, ty: ObjType, len: usize, heads: Option<&[ChangeHash]>, rec: &mut J) {
+    // cursors at every index, both move modes, resolved immediately; start / end cursors
+    let mut curs = vec![];
+    for i in 0..len {
+        let mut e = json!({});
+        for (k, kp, mode) in [("a", "ap", MoveCursor::After), ("b", "bp", MoveCursor::Before)] {
+            match doc.get_cursor_moving(obj, i, heads, mode) {
+                Ok(c) => {
+                    e[k] = cursor_id(&c);
+                    e[kp] = pos_json(doc.get_cursor_position(obj, &c, heads));
+                    // the byte and string forms must name the same cursor
+                    let viab = Cursor::try_from(c.to_bytes().as_slice()).ok();
+                    let vias = Cursor::try_from(c.to_string().as_str()).ok();
+                    e[&format!("{}rt", k)] = json!(viab.as_ref() == Some(&c) && vias.as_ref() == Some(&c));
+                }
+                Err(_) => {
+                    e[k] = json!([-1, -1]);
+                    e[kp] = json!(-1);
+                    e[&format!("{}rt", k)] = json!(false);
+                }
+            }
+        }
+        curs.push(e);
+    }
+    rec["curs"] = J::Array(curs);
+    rec["cs"] = match doc.get_cursor(obj, CursorPosition::Start, heads) {
+        Ok(c) => pos_json(doc.get_cursor_position(obj, &c, heads)),
+        Err(_) => json!(-1),
+    };
+    rec["ce"] = match doc.get_cursor(obj, CursorPosition::End, heads) {
+        Ok(c) => pos_json(doc.get_cursor_position(obj, &c, heads)),
+        Err(_) => json!(-1),
+    };
+    // marks, three ways
+    let marks = match heads {
+        Some(h) => doc.marks_at(obj, h),
+        None => doc.marks(obj),
+    };
+    match marks {
+        Ok(ms) => {
+            let mut v: Vec<J> = ms
+                .iter()
+                .map(|m| json!({"name": enc::safe_str(m.name()), "v": enc::scalar(m.value()), "s": m.start as i64, "e": m.end as i64}))
+                .collect();
+            v.sort_by_key(|x| x.to_string());
+            rec["marks"] = J::Array(v);
+        }
+        Err(e) => {
+            rec["marks"] = json!([{"name": format!("error {:?}", e), "v": enc::nothing(), "s": -1, "e": -1}]);
+        }
+    }
+    let mut mat = vec![];
+    for i in 0..len {
+        mat.push(match doc.get_marks(obj, i, heads) {
+            Ok(m) => markset_json(&m),
+            Err(e) => json!([{"name": format!("error {:?}", e), "v": enc::nothing()}]),
+        });
+    }
+    rec["mat"] = J::Array(mat);
+    if ty == ObjType::Text {
+        let spans = match heads {
+            Some(h) => doc.spans_at(obj, h),
+            None => doc.spans(obj),
+        };
+        match spans {
+            Ok(sp) => {
+                let v: Vec<J> = sp
+                    .map(|s| match s {
+                        Span::Text { text, marks } => json!({"t":"text","toks": enc::str_tokens(&text),
+                            "marks": marks.map(|m| markset_json(&m)).unwrap_or(json!([]))}),
+                        Span::Block(_) => json!({"t":"block","toks":["objrepl"],"marks":[]}),
+                    })
+                    .collect();
+                rec["spans"] = J::Array(v);
+            }
+            Err(e) => {
+                rec["spans"] = json!([{"t": format!("error {:?}", e), "toks": [], "marks": []}]);
+            }
+        }
+    }
+}
 
 fn vals_at<R: ReadDoc>(
     doc: &R,
@@ -75,7 +197,11 @@ pub fn view<R: ReadDoc>(doc: &R, heads: Option<&[ChangeHash]>) -> J {
                     let (win, vals) = vals_at(doc, &obj, i.into(), heads, &mut todo);
                     elems.push(json!({"win": win, "vals": vals}));
                 }
-                json!({"id": enc::exid(&obj), "ty": "list", "len": len, "elems": elems})
+                let mut rec = json!({"id": enc::exid(&obj), "ty": "list", "len": len, "elems": elems});
+                if RICH.load(Ordering::SeqCst) {
+                    rich_seq(doc, &obj, ty, len, heads, &mut rec);
+                }
+                rec
             }
             ObjType::Text => {
                 let len = match heads {
@@ -96,7 +222,11 @@ pub fn view<R: ReadDoc>(doc: &R, heads: Option<&[ChangeHash]>) -> J {
                     let (win, vals) = vals_at(doc, &obj, i.into(), heads, &mut todo);
                     units.push(json!({"win": win, "vals": vals}));
                 }
-                json!({"id": enc::exid(&obj), "ty": "text", "len": len, "text": toks, "terr": terr, "units": units})
+                let mut rec = json!({"id": enc::exid(&obj), "ty": "text", "len": len, "text": toks, "terr": terr, "units": units});
+                if RICH.load(Ordering::SeqCst) {
+                    rich_seq(doc, &obj, ty, len, heads, &mut rec);
+                }
+                rec
             }
         };
         out.insert(k, rec);
